@@ -161,7 +161,11 @@ def lines_correspondence(run, n):
         # a file ending without newline / with an empty last line reads the same list of lines
         clean_terms.append("((%s, %s) : list string * list string)" % (coq_list([coq_string(s) for s in raw]), coq_list([coq_string(s) for s in cleaned])))
         d, rm = run.rng.choice([("&", True), (",", False), ("{", False), (",", True), ("&", False)])
-        src = cleaned if run.rng.random() < 0.6 else [s for s in gen_raw_lines(run.rng) if s]
+        if run.rng.random() < 0.6:
+            src = cleaned
+        else:                                  # another cleaned list (only inputs the readers can produce)
+            p.write_text("\n".join(gen_raw_lines(run.rng)))
+            src = fn.read_clean_lines(Path(p))
         try:
             obs = fn.merge_delimiter_continued_lines(list(src), d, rm)
         except IndexError:
@@ -559,17 +563,32 @@ def do_replay(run, path):
         print("replay:", "property FAILS on this input" if e else "property holds on this input")
         return 1 if e else 0
     if k == "lines_correspondence":
+        from pathlib import Path
         from cheetah.converters.utils import fortran_namelist as fn
         c = r["case"]
-        try:
-            obs = fn.merge_delimiter_continued_lines(list(c["merge_in"]), c["delimiter"], c["remove"])
-        except IndexError:
-            obs = None
-        t = "((%s, %s, %s, %s) : list string * string * bool * option (list string))" % (coq_list([coq_string(s) for s in c["merge_in"]]), coq_string(c["delimiter"]), "true" if c["remove"] else "false",
-                                  "None" if obs is None else "(Some %s)" % coq_list([coq_string(s) for s in obs]))
-        failing = common.run_vm_cases(PID, "replay", PRE_LANG, [t], "merge_check", timeout=600)
-        print("replay:", "property FAILS on this input" if failing else "property holds on this input (merge stage)")
-        return 1 if failing else 0
+        sl = lambda l: coq_list([coq_string(x) for x in l])
+        so = lambda l: "None" if l is None else "(Some %s)" % sl(l)
+        p = BDIR / "lines_replay.txt"
+        p.write_text("\n".join(c["raw"]))
+        cleaned = fn.read_clean_lines(Path(p))
+
+        def merge(l, d, rm):
+            try:
+                return fn.merge_delimiter_continued_lines(list(l), d, rm)
+            except IndexError:
+                return None
+        obs = merge(c["merge_in"], c["delimiter"], c["remove"])
+        m = merge(cleaned, "&", True)
+        m = m if m is None else merge(m, ",", False)
+        m = m if m is None else merge(m, "{", False)
+        bad = []
+        bad += common.run_vm_cases(PID, "replay_a", PRE_LANG, ["((%s, %s) : list string * list string)" % (sl(c["raw"]), sl(cleaned))], "clean_check", timeout=600)
+        bad += common.run_vm_cases(PID, "replay_b", PRE_LANG, ["((%s, %s, %s, %s) : list string * string * bool * option (list string))" % (
+            sl(c["merge_in"]), coq_string(c["delimiter"]), "true" if c["remove"] else "false", so(obs))], "merge_check", timeout=600)
+        bad += common.run_vm_cases(PID, "replay_c", PRE_LANG, ["((%s, %s) : list string * option (list string))" % (sl(c["raw"]), so(m))], "front_check", timeout=600)
+        print("replay:", "property FAILS on this input" if bad else "property holds on this input")
+        print(json.dumps({"cleaned": cleaned, "merged": obs, "front_end": m}))
+        return 1 if bad else 0
     if k in ("expansion", "length"):
         case_text = r["text"]
         e = length_oracle(r["flavour"], r["root"], case_text) if k == "length" else None
